@@ -241,6 +241,95 @@ theorem C17_fresh (A : AEAD) (n₁ n₂ k₁ k₂ m₁ m₂ : Bytes) (h1 : n₁.
   unfold encryptWith at he
   exact hne (List.append_inj he (by rw [h1, h2])).1
 
+/-! ### Many calls, any schedule (engine op `encpar`) -/
+
+/-- `n` encryptions whose nonces are pairwise distinct give pairwise distinct ciphertexts — whatever the keys and
+plaintexts (in particular `n` times the same plaintext under the same key). -/
+theorem C17_fresh_calls (A : AEAD) (calls : List EncCall) (hlen : ∀ c ∈ calls, c.nonce.length = nonceSize)
+    (hne : calls.Pairwise fun a b => a.nonce ≠ b.nonce) : (encryptCalls A calls).Pairwise (· ≠ ·) := by
+  unfold encryptCalls
+  rw [List.pairwise_map]
+  exact hne.imp_of_mem fun ha hb h => C17_fresh A _ _ _ _ _ _ (hlen _ ha) (hlen _ hb) h
+
+/-- `encryptMany` element by element (the form the driver evaluates). -/
+theorem encryptMany_eq_map (A : AEAD) (key msg : Bytes) (nonces : List Bytes) :
+    encryptMany A key msg nonces = nonces.map fun n => encryptWith A n key msg := by
+  simp [encryptMany, encryptCalls, List.map_map, Function.comp_def]
+
+/-- An interleaving of threads is a permutation of all their elements. -/
+theorem Interleave.perm {α : Type} {threads : List (List α)} {out : List α} (h : Interleave threads out) :
+    out.Perm threads.flatten := by
+  induction h with
+  | done threads hall =>
+    have : threads.flatten = [] := by
+      rw [List.flatten_eq_nil_iff]; exact hall
+    rw [this]
+  | step threads i x tl rest hi hint ih =>
+    refine (List.Perm.cons x ih).trans ?_
+    clear ih hint
+    induction threads generalizing i with
+    | nil => simp at hi
+    | cons t ts iht =>
+      cases i with
+      | zero =>
+        simp only [List.getElem?_cons_zero, Option.some.injEq] at hi
+        subst hi
+        simp
+      | succ j =>
+        simp only [List.getElem?_cons_succ] at hi
+        simp only [List.set_cons_succ, List.flatten_cons]
+        exact (List.perm_middle.symm).trans (List.Perm.append_left t (iht j hi))
+
+/-- Concurrency form: several goroutines each make a sequence of `Encrypt` calls; for EVERY interleaving of them,
+if the nonces drawn by all the calls are pairwise distinct (what a fresh random 24-byte nonce per call gives, and
+what a Load-then-Store message counter does NOT give), all ciphertexts produced are pairwise distinct. -/
+theorem C17_fresh_concurrent (A : AEAD) (threads : List (List EncCall)) (sched : List EncCall)
+    (hs : Interleave threads sched)
+    (hlen : ∀ c ∈ threads.flatten, c.nonce.length = nonceSize)
+    (hne : threads.flatten.Pairwise fun a b => a.nonce ≠ b.nonce) :
+    (encryptCalls A sched).Pairwise (· ≠ ·) := by
+  have hp := hs.perm
+  refine C17_fresh_calls A sched (fun c hc => hlen c (hp.mem_iff.1 hc)) ?_
+  exact (hp.pairwise_iff (fun {a b} (h : a.nonce ≠ b.nonce) => h.symm)).2 hne
+
+/-- The `encpar` instance: one plaintext, one key, `nonces` in any order of completion. -/
+theorem C17_fresh_many (A : AEAD) (key msg : Bytes) (nonces sched : List Bytes) (hp : sched.Perm nonces)
+    (hlen : ∀ n ∈ nonces, n.length = nonceSize) (hne : nonces.Pairwise (· ≠ ·)) :
+    (encryptMany A key msg sched).Pairwise (· ≠ ·) ∧ (encryptMany A key msg sched).length = nonces.length := by
+  constructor
+  · unfold encryptMany
+    refine C17_fresh_calls A _ ?_ ?_
+    · intro c hc
+      obtain ⟨n, hn, rfl⟩ := List.mem_map.1 hc
+      exact hlen n (hp.mem_iff.1 hn)
+    · rw [List.pairwise_map]
+      exact (hp.pairwise_iff (fun {a b} (h : a ≠ b) => h.symm)).2 hne
+  · simp [encryptMany, encryptCalls, hp.length_eq]
+
+/-- Necessity (the shape of seeded change C17-5): if two of the calls got the SAME nonce — e.g. two goroutines that
+both executed the counter's atomic load before either executed its store — the two ciphertexts of the equal
+plaintexts are byte-for-byte equal. -/
+theorem C17_nonce_reuse_collides (A : AEAD) (key msg : Bytes) (nonces : List Bytes) (h : ¬ nonces.Nodup) :
+    ¬ (encryptMany A key msg nonces).Nodup := by
+  intro hn
+  apply h
+  unfold encryptMany encryptCalls at hn
+  rw [List.map_map, List.Nodup, List.pairwise_map] at hn
+  exact hn.imp fun hab e => hab (by rw [e])
+
+/-- non-vacuity: three goroutines' calls, the toy nonces 0…5, one of the interleavings. -/
+example : Interleave [[(⟨Toy.nonceOfId 0, Toy.keyOfId 1, [1, 2]⟩ : EncCall), ⟨Toy.nonceOfId 1, Toy.keyOfId 1, [1, 2]⟩],
+      [⟨Toy.nonceOfId 2, Toy.keyOfId 1, [1, 2]⟩]]
+    [⟨Toy.nonceOfId 0, Toy.keyOfId 1, [1, 2]⟩, ⟨Toy.nonceOfId 2, Toy.keyOfId 1, [1, 2]⟩, ⟨Toy.nonceOfId 1, Toy.keyOfId 1, [1, 2]⟩] := by
+  refine .step _ 0 _ _ _ rfl (.step _ 1 _ _ _ rfl (.step _ 0 _ _ _ rfl (.done _ (by simp))))
+
+example : (encryptMany Toy.aead (Toy.keyOfId 1) [1, 2] [Toy.nonceOfId 0, Toy.nonceOfId 2, Toy.nonceOfId 1]).Pairwise (· ≠ ·) :=
+  (C17_fresh_many Toy.aead _ _ [Toy.nonceOfId 0, Toy.nonceOfId 1, Toy.nonceOfId 2] _
+    (.cons _ (.swap _ _ _)) (by decide) (by decide)).1
+
+example : ¬ (encryptMany Toy.aead (Toy.keyOfId 1) [1, 2] [Toy.nonceOfId 7, Toy.nonceOfId 7]).Nodup :=
+  C17_nonce_reuse_collides _ _ _ _ (by simp)
+
 /-! ## Passphrase-derived keys -/
 
 /-- `DeriveKey` returns nil exactly when scrypt accepts the stored parameters and sha256 of the derived key equals
